@@ -369,7 +369,7 @@ func (fr *frame) run() {
 		tp, ok := r.(targetPanic)
 		if !ok {
 			switch r.(type) {
-			case pathEnd, engineCrash:
+			case pathEnd, engineCrash, threadKill:
 			default:
 				r = engineCrash{Msg: fmt.Sprint(r), Stack: string(debug.Stack()), Fn: fr.fn.String()}
 			}
@@ -623,7 +623,12 @@ func (fr *frame) visit(instr ssa.Instruction) continuation {
 		*defers = &deferred{fn: fn, args: args, tail: *defers}
 	case *ssa.Go:
 		fn, args := fr.prepareCall(&instr.Call)
-		st.spawned = append(st.spawned, spawnedCall{fn, args})
+		if st.sch.on {
+			st.spawnThread(fn, args)
+			st.yield()
+		} else {
+			st.spawned = append(st.spawned, spawnedCall{Fn: fn, Args: args})
+		}
 	case *ssa.MakeChan:
 		n := st.asInt(fr.get(instr.Size), 0, 64)
 		fr.set(instr, ChanRef{O: st.newObj(&ChanV{Cap: int(n)}, instr.Type())})
@@ -997,23 +1002,39 @@ func (st *State) chanSend(c ChanRef, v Value) {
 	if c.O == nil {
 		st.end("blocked", "send on nil channel")
 	}
+	if !st.inSelect {
+		st.yield()
+	}
 	ch := st.wr(c.O).V.(*ChanV)
 	if ch.Closed {
 		st.throwRuntime("send on closed channel")
 	}
-	if len(ch.Buf) >= ch.Cap {
-		st.end("blocked", "send on full channel")
+	for len(ch.Buf) >= ch.Cap {
+		// (unbuffered channels are modelled with capacity 0 and never accept a send: a
+		// rendezvous needs a parked receiver, which this model does not implement)
+		if ch.Cap == 0 || !st.block("send on full channel") {
+			st.end("blocked", "send on full channel")
+		}
+		ch = st.wr(c.O).V.(*ChanV)
+		if ch.Closed {
+			st.throwRuntime("send on closed channel")
+		}
 	}
 	ch.Buf = append(ch.Buf, CopyVal(v))
+	st.progress()
 }
 
 func (st *State) chanRecv(c ChanRef, commaOk bool, elem types.Type) Value {
 	if c.O == nil {
 		st.end("blocked", "receive from nil channel")
 	}
-	ch := st.wr(c.O).V.(*ChanV)
 	var v Value
 	ok := true
+	if !st.inSelect {
+		st.yield()
+	}
+retry:
+	ch := st.wr(c.O).V.(*ChanV)
 	switch {
 	case len(ch.Buf) > 0:
 		v = ch.Buf[0]
@@ -1022,6 +1043,9 @@ func (st *State) chanRecv(c ChanRef, commaOk bool, elem types.Type) Value {
 		v = Zero(elem)
 		ok = false
 	default:
+		if st.block("receive from empty channel") || st.runPending() {
+			goto retry
+		}
 		st.end("blocked", "receive from empty channel")
 	}
 	if commaOk {
@@ -1039,6 +1063,7 @@ func (st *State) chanClose(c ChanRef) {
 		st.throwRuntime("close of closed channel")
 	}
 	ch.Closed = true
+	st.progress()
 }
 
 func (st *State) selectOp(fr *frame, instr *ssa.Select) Value {
@@ -1046,6 +1071,10 @@ func (st *State) selectOp(fr *frame, instr *ssa.Select) Value {
 	chosen := -1
 	var recv Value
 	recvOk := false
+	st.yield()
+	st.inSelect = true
+	defer func() { st.inSelect = false }()
+retry:
 	for i, s := range instr.States {
 		c := fr.get(s.Chan).(ChanRef)
 		if c.O == nil {
@@ -1072,6 +1101,9 @@ func (st *State) selectOp(fr *frame, instr *ssa.Select) Value {
 		}
 	}
 	if chosen < 0 && instr.Blocking {
+		if st.block("select with no ready case") || st.runPending() {
+			goto retry
+		}
 		st.end("blocked", "select with no ready case")
 	}
 	r := Tuple{term.BV(64, uint64(int64(chosen))), term.Bool(recvOk)}
